@@ -7,6 +7,24 @@ COMMON_NOTE = ("Trusted: Coq 8.16.1 kernel (vm_compute, no native_compute); no a
                "extraction via ExtrOcamlBasic only + coq/Extract/driver.ml, cross-checked by vm_compute on a sample every run; "
                "harness/translate.py (T1) and the per-property runner harness/cNN.py (T2 canonicalisation). ")
 CLAIMED = {
+ "C05": dict(
+   text="Coq theorems over ALL record lists (no bound on count or length beyond the header limits): reading back the F/FB, V and VB images written by the specification yields exactly the records, the header-preserving iterators yield payloads with correct length words, and the stream is exhausted; for RECFM N, for EVERY buffer size B>0 and every announced-length sequence with 1<=len<=B, the buffer automaton delivers each record at the head of its buffer, in order, and ends empty (invariant buf = firstn B (buf ++ rest)); instantiated with the buffer size and refill expression read from the source. "
+        "The original refill (B - used) is refuted by a vm_compute witness. Correspondence on boundary lengths straddling 32768 and random blockings.",
+   note="file.read(n) on a regular file is modelled as firstn n (short reads on pipes are outside the property); struct '>H2x' semantics modelled and tied by correspondence and the T1 format check. The RECFM_N consumer is assumed to announce the true length once per buffer.",
+   technique="Coq proof by induction on the record/block list with a buffer invariant for arbitrary B + regenerated parameters + sampled differential correspondence",
+   design="5/C05"),
+ "C12": dict(
+   text="PARTIAL. Coq theorems over ALL source texts for the text layer: reference_format ignores columns 1-6 and 73+, inserted comment/blank/bare-directive lines anywhere (also between a line and its continuation), joins continuations, applies every REPLACING pair to each line exactly once in order; the sentence splitter returns exactly the printed entries; re-breaking and re-spacing an entry gives the same compact clause text. Two shapes are refuted and kept as findings (numbered EJECT/SKIP lines, '/' comment lines). "
+        "Synonyms, optional words, clause order, case and level renumbering go through the unmodelled clause regexp and are decided by metamorphic correspondence only (original vs rewritten copybook: schema and layout must be equal).",
+   note="Modelled by hand: reference_format, dde_sentences, compact_source with Python's exact white-space and digit classes. NOT modelled: the clause regular expression, structure (C07), schema emission; layer B has no Coq statement. Known findings: numbered directives, '/' comments, lower-case words, separator after a picture, VALUE literal re-parsed by estruct, word continuation blanks, INDEXED BY naming (2 shapes).",
+   technique="Coq proof by induction over line lists / joined text for the hand-modelled text layer + metamorphic differential correspondence for the clause layer",
+   design="5/C12"),
+ "C13": dict(
+   text="Coq theorems over ALL strings (lists of code points, any length), outside eight exactly characterised known-bad families: the decoder-side scanner either raises ValueError or sizes the picture as the number of positions the grammar denotes and the string holds no foreign character (fuel sufficiency proved); both scanners accept the same strings with the same element lists; the generator's numeric classification equals the grammar's. Each finding has a refutation witness. "
+        "PARTIAL for the decoder half of the classification agreement and for the repeat-count equivalence (size and grammar summary proved; acceptance/sign/digit fields of the expansion not). Correspondence exhaustive to length 3/4 over the picture alphabet, random, grammar-generated with injected foreign characters.",
+   note="Regex finditer semantics of the two picture patterns modelled by hand as a left-to-right scanner; character classes, IGNORECASE and the Unicode Nd table regenerated from the source/interpreter. IGNORECASE folding = ASCII + U+017F (checked once over all code points, assumed per run). Eight known findings (skipped characters, zero repeat, lower case, repeat notation not numeric, IndexError on no match, non-ASCII digits, zero positions, last-sign-only).",
+   technique="Coq proof by induction on the string (scanner vs grammar automaton) + regenerated parameters + exhaustive-to-length-4 differential correspondence",
+   design="5/C13"),
  "C07": dict(
    text="PARTIAL. Coq theorems over ALL entry lists (any sequence of two-digit levels, no well-nesting assumed): the forest built by structure() has preorder = the kept entries (66/77/88 skipped), each exactly once in source order, every entry's parent is the nearest preceding kept entry with a strictly smaller level, roots are the entries without one (every 01); generated FILLER names are pairwise distinct. "
         "The clause regular expression, sentence splitter and schema emission are not proved: the emitted schema shape is an executable model compared with the real code on generated copybooks, and what the text layer returned is observed in every case.",
